@@ -38,7 +38,7 @@ type Tree struct {
 }
 
 var rec = ev.New("C13", "c13.calltree",
-	"generated call trees: a root template and up to 5 generated components whose bodies and child blocks are sequences of markers, children slots (0..2 per body), and calls - with or without a block, nested up to depth 4 - to generated components, once handles (block form and fixed-component form), templ.Flush, templ.Raw, templ.Join, a function component that ignores children and a hand-written one that renders templ.GetChildren; "+
+	"generated call trees: a root template and up to 5 generated components whose bodies and child blocks are sequences of markers, children slots (0..2 per body), and calls - with or without a block, nested up to depth 4 - to generated components, once handles (block form and fixed-component form), templ.Flush, templ.Raw, templ.Join, a function component that ignores children, a hand-written one that renders templ.GetChildren and a hand-written layer that renders two generated components with the context it received; "+
 		"every tree is generated with /repo's generator, compiled and rendered; the marker sequence must equal the one computed by a reference interpreter of the statement (a callee gets exactly its call site's block, blocks are evaluated in the caller's scope, nothing leaks to siblings or descendants, nothing is rendered twice). "+
 		"Non-trivial = the tree has a no-block call inside some block, or a sibling after a call whose callee does not consume its block; distinct by tree")
 
@@ -104,7 +104,15 @@ func (in *interp) eval(items []Item, sc *scope) {
 			case "fn":
 				in.sb.WriteString("<b>" + it.Text + "</b>")
 			case "join":
+				// templ.Join has no children slot: a block given to it is given to nobody, and
+				// the joined components were called without a block.
 				in.eval(in.t.Comps[it.A], &scope{})
+				in.eval(in.t.Comps[it.B], &scope{})
+			case "fnseq":
+				// a hand-written layer that renders A and then B with the context it was rendered
+				// with: that is Go's way of calling A with the layer's own block (WithChildren +
+				// Render); B follows a call and was given nothing.
+				in.eval(in.t.Comps[it.A], &scope{children: blk})
 				in.eval(in.t.Comps[it.B], &scope{})
 			}
 		}
@@ -175,6 +183,8 @@ func (t Tree) source(prefix string) string {
 					expr = "fnKids()"
 				case "join":
 					expr = fmt.Sprintf("templ.Join(%sC%d(), %sC%d())", prefix, it.A, prefix, it.B)
+				case "fnseq":
+					expr = fmt.Sprintf("fnSeq(%sC%d(), %sC%d())", prefix, it.A, prefix, it.B)
 				}
 				if it.HasBlk {
 					fmt.Fprintf(&sb, "%s@%s {\n", indent, expr)
@@ -224,6 +234,17 @@ func fnKids() templ.Component {
 		children := templ.GetChildren(ctx)
 		ctx = templ.ClearChildren(ctx)
 		return children.Render(ctx, w)
+	})
+}
+
+// fnSeq is a hand-written layer that hands the context it was rendered with to two components in
+// turn (what templ.Join does, without knowing about children).
+func fnSeq(a, b templ.Component) templ.Component {
+	return templ.ComponentFunc(func(ctx context.Context, w io.Writer) error {
+		if err := a.Render(ctx, w); err != nil {
+			return err
+		}
+		return b.Render(ctx, w)
 	})
 }
 
@@ -365,16 +386,16 @@ func (g genCtx) items(depth int, inBlock bool) []Item {
 			out = append(out, Item{Kind: "slot"})
 		default:
 			it := Item{Kind: "call"}
-			callees := []string{"gen", "gen", "gen", "once", "oncefixed", "flush", "raw", "fn", "fnkids", "join"}
+			callees := []string{"gen", "gen", "gen", "once", "oncefixed", "flush", "raw", "fn", "fnkids", "join", "fnseq"}
 			it.Callee = rapid.SampledFrom(callees).Draw(g.t, "callee")
 			lo := g.current + 1
-			if (it.Callee == "gen" || it.Callee == "join") && lo >= g.nComps {
+			if (it.Callee == "gen" || it.Callee == "join" || it.Callee == "fnseq") && lo >= g.nComps {
 				it.Callee = "fn"
 			}
 			switch it.Callee {
 			case "gen":
 				it.A = rapid.IntRange(lo, g.nComps-1).Draw(g.t, "comp")
-			case "join":
+			case "join", "fnseq":
 				it.A = rapid.IntRange(lo, g.nComps-1).Draw(g.t, "compA")
 				it.B = rapid.IntRange(lo, g.nComps-1).Draw(g.t, "compB")
 			case "once", "oncefixed":
@@ -382,7 +403,7 @@ func (g genCtx) items(depth int, inBlock bool) []Item {
 			case "raw", "fn":
 				it.Text = g.mark()
 			}
-			if it.Callee != "join" && rapid.IntRange(0, 2).Draw(g.t, "block") > 0 {
+			if rapid.IntRange(0, 2).Draw(g.t, "block") > 0 {
 				it.HasBlk = true
 				it.Block = g.items(depth+1, true)
 				if len(it.Block) == 0 {
@@ -415,7 +436,7 @@ var genTree = rapid.Custom(func(t *rapid.T) Tree {
 
 func consumes(it Item) bool {
 	switch it.Callee {
-	case "raw", "fn", "oncefixed":
+	case "raw", "fn", "oncefixed", "join":
 		return false
 	}
 	return true
